@@ -310,6 +310,7 @@ BiasSpec make_bias(std::string const &t, Rng &r, std::vector<CvSpec> const &cvs,
     else { std::vector<double> sg(n); for (size_t i = 0; i < n; i++) sg[i] = round3(cvs[i].width * r.uniform(0.5, 2.0)); s += "  gaussianSigmas " + list(sg) + "\n"; }
     if (t == "meta_nogrid") s += "  useGrids off\n";
     if (t == "meta_keep") { s += "  keepHills on\n"; if (r.chance(0.5)) s += "  rebinGrids on\n"; }
+    else if (t != "meta_nogrid" && r.chance(0.25)) s += "  rebinGrids on\n";   // a no-op when the grid definition is unchanged
     if (t == "meta_wt") s += "  wellTempered on\n  biasTemperature " + num(round3(r.uniform(300, 3000))) + "\n";
     if (t == "meta_gupd") s += "  gridsUpdateFrequency " + std::to_string(r.range(2, 20)) + "\n";
     if (r.chance(0.3)) s += "  writeHillsTrajectory on\n";
